@@ -201,6 +201,21 @@ func BuildPool(seed int) *Pool {
 			p.Bytes = append(p.Bytes, s.Bytes())
 			p.Names = append(p.Names, "accumulating stream")
 		}
+		// local timestamps whose zone offsets differ by less than a minute,
+		// a second, an hour (anything cached per process by a lossy key
+		// would show when these are decoded one after another)
+		for _, off := range []int64{7200, 7230, 7201, 7259, -3600, -3601, 0, 1} {
+			ref := uint64(0x3B9ACA00)
+			s := &fitmodel.Stream{HeaderSize: 12, Proto: 0x20, Recs: []fitmodel.Rec{
+				{IsDef: true, Global: 0, Fields: []fitmodel.FieldDef{{Num: 0, Size: 1, Base: 0}}}, {Raw: []byte{4}},
+				{IsDef: true, Local: 1, Global: 20, Fields: []fitmodel.FieldDef{{Num: 253, Size: 4, Base: 0x86}}},
+				{Local: 1, Raw: fitmodel.PutWireUint(ref, 4, false)},
+				{IsDef: true, Local: 2, Global: 34, Fields: []fitmodel.FieldDef{{Num: 253, Size: 4, Base: 0x86}, {Num: 5, Size: 4, Base: 0x86}}},
+				{Local: 2, Raw: append(fitmodel.PutWireUint(ref, 4, false), fitmodel.PutWireUint(uint64(int64(ref)+off), 4, false)...)},
+			}}
+			p.Bytes = append(p.Bytes, s.Bytes())
+			p.Names = append(p.Names, fmt.Sprintf("local timestamp, zone offset %d s", off))
+		}
 		// chained inputs
 		for i := 0; i < 4; i++ {
 			var b []byte
